@@ -96,13 +96,25 @@ def gen_scenario(rng, intervals=("1min", "1min", "1min", "1h", "5min", "2h", "2h
             path.append((S, mark))
         instrs.append({"name": f"ETH-X{i}-{strike}-{'C' if kind == 'CALL' else 'P'}", "kind": kind, "strike": strike, "expiry": expiry,
                        "exp_cls": exp_cls, "gone": gone, "path": path})
-    missing = set(h for h in range(0, n_hours) if rng.random() < 0.15)
+    # an option bought in mid-run that expires BEFORE everything held since the start: it is due at its own expiry, not at the others'
+    late_buy = None
     step_h = max(1, INTERVAL_MIN[interval] // 60)
+    if n_ins >= 2 and n_hours >= 3 * step_h + 1 and rng.random() < 0.5:
+        a, b = instrs[0], instrs[1]
+        a["expiry"], a["exp_cls"] = rng.choice((60 * n_hours + 600, 60 * (n_hours - 1))), "late-holder"
+        hb = rng.randint(1, max(1, (n_hours - 2) // step_h - 1)) * step_h              # the bar it is bought on (on the grid, not the first)
+        he = rng.randint(hb + step_h, n_hours - 1)                                     # it expires after that, inside the run
+        b["expiry"], b["exp_cls"] = 60 * he - rng.choice((0, 0, 25)), "bought-late-expires-first"
+        b["gone"] = rng.random() < 0.3
+        late_buy = (60 * hb, b["name"], a["name"])
+    missing = set(h for h in range(0, n_hours) if rng.random() < 0.15)
     if step_h > 1 and rng.random() < 0.7:
         # a whole bar of the coarse grid without option data, between hours that have data (resampling labels that bar all the same)
         b = rng.randint(1, max(1, (n_hours - 1) // step_h - 1))
         missing |= set(range(b * step_h, min(n_hours, (b + 1) * step_h)))
     missing.discard(0)              # the first bar has data (a run that starts in a gap is the directed case first_hour_missing)
+    if late_buy is not None:
+        missing.discard(late_buy[0] // 60)      # the bar of the purchase has data
     if len(missing) == n_hours:
         missing.discard(n_hours - 1)
     hours = []
@@ -125,7 +137,10 @@ def gen_scenario(rng, intervals=("1min", "1min", "1min", "1h", "5min", "2h", "2h
         hours.append((60 * h, rows))
     positions = []
     for ins in instrs:
-        if rng.random() < 0.75:
+        held = rng.random() < 0.75
+        if late_buy is not None and ins["name"] in late_buy[1:]:
+            held = ins["name"] == late_buy[2]
+        if held:
             positions.append({"name": ins["name"], "expiry": ins["expiry"], "strike": ins["strike"], "kind": ins["kind"],
                               "amount": str(rng.choice((1, 2, 3, 10, 57, 400)))})
     # scripted strategy: minute -> ops (each with the hook it is issued from: before_bar / on_bar / after_bar / notify)
@@ -149,6 +164,8 @@ def gen_scenario(rng, intervals=("1min", "1min", "1min", "1h", "5min", "2h", "2h
         else:
             op = {"type": "withdraw", "amount": Decimal(rng.randint(1, 50)) / 100}
         add_scripted(rng, script, m, op)
+    if late_buy is not None:
+        script.setdefault(late_buy[0], []).insert(0, {"type": "buy", "name": late_buy[1], "amount": rng.randint(1, 3)})
     return {"interval": interval, "n_hours": n_hours, "tick": tick, "instrs": instrs, "hours": hours, "positions": positions,
             "script": script, "cash": "5", "wallet": "10"}
 
